@@ -43,9 +43,16 @@ def observe(ids):
     from pyimpspec import get_elements
     parts = []
     for default_only, private in ((False, False), (False, True), (True, False), (True, True)):
-        e = get_elements(default_only=default_only, private=private)
-        parts.append(",".join(f"{k}:{ids[v]}" for k, v in e.items()))
-    defaults = get_elements(default_only=True, private=True)
+        try:
+            e = get_elements(default_only=default_only, private=private)
+        except Exception as x:  # noqa
+            parts.append(f"RAISED:{type(x).__name__}")
+            continue
+        parts.append(",".join(f"{k}:{ids.get(v, '?')}" for k, v in e.items()))
+    try:
+        defaults = get_elements(default_only=True, private=True)
+    except Exception as x:  # noqa
+        return "|".join(parts) + f" RAISED:{type(x).__name__}"
     ps = "|".join(f"{ids[c]}=" + ";".join(f"{k}:{vid(v)}" for k, v in c.get_default_values().items()) for c in defaults.values())
     return "|".join(parts) + " " + ps
 
@@ -137,6 +144,9 @@ def run(ctx):
                 except Exception as x:  # noqa
                     real.append(f"err {type(x).__name__} " + observe(ids))
                 # ---- oracle after every step
+                if "RAISED" in real[-1]:
+                    ctx.add_failing("get_elements-raises", hist[-8:], observed=real[-1][:200], expected="the tables of registered elements", clause="built-ins cannot be removed or shadowed")
+                    break
                 now = get_elements(private=True)
                 for k, c in defaults.items():
                     if now.get(k) is not c:
